@@ -1131,7 +1131,9 @@ def check_history(res, W, obs, plan, label, prior=None, replay=None):
             res.evals += 1
             res.count("pass-through:observed")
             c = canon([e["type"], e["origin"], e["message"], e["source"]])
-            if c not in nc_final:
+            if W["entry"] == "call" and e["source"] is None:
+                res.count("call:value-without-source")  # the writer cannot file it: no record to compare with
+            elif c not in nc_final:
                 res.witness("C14/pass-through/not-completed-altered-after-observer", **det(saw=e, final_not_completed=sorted(nc_final)[:6]))
     # every started call finished (same process)
     res.evals += 1
